@@ -776,6 +776,18 @@ static void write_events(void)
 	ev_clear();
 }
 
+/* Locals of the TC programs that are used without being initialised must not read as zero by
+ * accident: the stack region the program is about to use is filled with a pattern first
+ * (the BPF verifier rejects reads of uninitialised stack, a native build does not). */
+static void __attribute__((noinline)) poison_stack(void)
+{
+	volatile unsigned char buf[16384];
+
+	for (unsigned i = 0; i < sizeof(buf); i++)
+		buf[i] = 0xAA;
+	__asm__ volatile("" ::"r"(buf) : "memory");
+}
+
 int main(void)
 {
 	out = stdout;
@@ -1012,6 +1024,7 @@ int main(void)
 				die("bad hook");
 			cur = &p;
 			in_program = 1;
+			poison_stack();
 			int rc = hooks[hook](&skb);
 
 			in_program = 0;
